@@ -365,6 +365,74 @@ def run(v, O):
             pass
     return out
 '''
+SYS_SRC = '''
+def outcome(fn):
+    try:
+        return ('ok', fn())
+    except Exception as e:
+        return ('raised', type(e).__name__ + ': ' + str(e)[:80])
+def run(v, O):
+    # symbols of the unit systems (#S.., #C.., #A..) are table entries like any other: exponent suffixes, quotients and the rendered text
+    from scinumtools.units.settings import QUANTITY_UNITS
+    out = []
+    syms = sorted(QUANTITY_UNITS)
+    for k, sym in enumerate(syms):
+        mag, dims = QUANTITY_UNITS[sym]
+        for ex in (('', '2', '-1', '1:2', '3', '-3:2')[k % 6], ('', '2', '-1')[k % 3]):
+            e = _fr.Fraction(ex.replace(':', '/')) if ex else _fr.Fraction(1)
+            for text, f0, d0 in ((sym + ex, 1.0, [0] * 8), ('g/' + sym + ex, None, None)) if k % 4 == 0 else ((sym + ex, 1.0, [0] * 8),):
+                r = outcome(lambda: Quantity(1, text))
+                out.append((f'{text}: accepted', O.same(r[0], 'ok')))
+                if r[0] != 'ok':
+                    continue
+                q = r[1]
+                sgn = 1 if f0 is not None else -1
+                want = float(mag) ** float(e * sgn)
+                out.append((f'{text}: factor is the table entry raised to the exponent', O.eq(q.value() * q.baseunits.magnitude / want, 1.0, 1e-10)))
+                wd = [_fr.Fraction(x) * e * sgn for x in dims]
+                if f0 is None:
+                    wd[1] += 1
+                out.append((f'{text}: dimension vector', O.same(lib_dims(q), wd)))
+                t2 = q.units()
+                r2 = outcome(lambda: Quantity(1, t2))
+                out.append((f'{text}: rendered text {t2} parses again', O.same(r2[0], 'ok')))
+                if r2[0] == 'ok':
+                    out.append((f'{text}: ... to the same units', O.same((lib_dims(r2[1]), r2[1].units()), (lib_dims(q), t2))))
+                    out.append((f'{text}: ... with the same factor', O.eq(r2[1].baseunits.magnitude / q.baseunits.magnitude, 1.0, 1e-12)))
+    return out
+'''
+HIST_SRC = '''
+def outcome(fn):
+    try:
+        return ('ok', fn())
+    except Exception as e:
+        return ('raised', type(e).__name__ + ': ' + str(e)[:80])
+def run(v, O):
+    # a rejected string leaves nothing behind: the next valid string gets its own factor and dimensions, through every entry point
+    from scinumtools.units import BaseUnits, Unit
+    out = []
+    for bad in v.bad:
+        for good in v.good:
+            want, wdims, _ = ref_units(good)
+            r0 = outcome(lambda: Quantity(1, bad))
+            out.append((f'{bad}: rejected', O.same(r0[0], 'raised')))
+            r = outcome(lambda: Quantity(1, good))
+            out.append((f'{good} after the rejected {bad}: accepted', O.same(r[0], 'ok')))
+            if r[0] == 'ok':
+                out.append((f'{good} after the rejected {bad}: factor', O.eq(r[1].value() * r[1].baseunits.magnitude / want, 1.0, 1e-12)))
+                out.append((f'{good} after the rejected {bad}: dimension vector', O.same(lib_dims(r[1]), wdims)))
+            outcome(lambda: BaseUnits(bad))
+            r = outcome(lambda: BaseUnits(good))
+            out.append((f'BaseUnits({good}) after the rejected {bad}: accepted', O.same(r[0], 'ok')))
+            if r[0] == 'ok':
+                out.append((f'BaseUnits({good}) after the rejected {bad}: factor', O.eq(r[1].magnitude / want, 1.0, 1e-12)))
+            outcome(lambda: Quantity(1, 'm').to(bad))
+            r = outcome(lambda: Quantity(1, good).value(good))
+            out.append((f'value({good}) after to({bad}) was refused', O.same(r[0], 'ok') and O.eq(r[1], 1.0, 1e-12)))
+    return out
+'''
+HIST_BAD = ['km*foo', 'J/kCel', '2*kg*xm', 'm/(s*baz2)', 'kg*m2/s2/qq', '(m*s', 'm*s)', 'm**2', 'kg*']
+HIST_GOOD = ['s', 'km/s', 'kg*m2/s2', 'mm-1']
 NUM_CASES = ['1e+3*m', 'km/(1e+2*s)', '6.02214076e+23*mol-1', '2.5e-3*km', '-2*m', '-2.5e-3*km', 'kg/(-4*s)', '-1*[c]2', '-2*-3*m', '1e3*g', '-0.5*cm2', '2.5*m/(4*s2)', '-3*J/(2*-6*mol)', '1e-3*kg*m2/s2', '0.5*[k_B]*K', '-1e2*%']
 NUM_BAD = ['k m', 'm s-2', 'da g', 'kg*m s/K', 'k\tm2', 'M eV', '-m', '2**m', '--2*m', '2*', '*m']
 
@@ -376,7 +444,9 @@ def run_task(task):
         from vf.scen import Scenario
         sc = Scenario('numeric-factors', NUM_SRC, {}, consts={'cases': NUM_CASES, 'bad': NUM_BAD}, preamble='from scinumtools.units import Quantity\n' + unitkit.REF_SRC, what='signed and exponent-form numeric factors inside unit expressions (concrete)', samples=1)
         doc = Scenario('published-tables', DOC_SRC, {}, consts={}, preamble='from scinumtools.units import Quantity\n', what='prefix table and admitted prefixes against the published CSV tables under docs/', samples=1)
-        return run_scenarios([sc, doc], contextlib.nullcontext, timeout_ms=20000, seed=task['seed'])
+        sysu = Scenario('system-symbols', SYS_SRC, {}, consts={}, preamble='from scinumtools.units import Quantity\nimport fractions as _fr\n' + unitkit.REF_SRC, what='symbols of the unit systems with exponent suffixes, in quotients, and their rendered text (concrete, whole table)', samples=1)
+        hist = Scenario('after-rejection', HIST_SRC, {}, consts={'bad': HIST_BAD, 'good': HIST_GOOD}, preamble='from scinumtools.units import Quantity\n' + unitkit.REF_SRC, what='a valid unit string parsed right after a rejected one (Quantity, BaseUnits, to/value)', samples=1)
+        return run_scenarios([sc, doc, sysu, hist], contextlib.nullcontext, timeout_ms=20000, seed=task['seed'])
     if task['part'] == 'X':
         from vf import xh
         return xh.to_task_result('harness_xh/c03_fraction.py', 'harness_xh.c03_fraction', 'C03', timeout=40 if task['tier'] == 'quick' else 120, jobs=4)
